@@ -721,6 +721,7 @@ def run(ctx: core.Ctx):
     shards += [("hist", a, b, hmax) for a, b in pairs]
     shards += [("evict",)]
     ctx.pmap(shard, shards)
+    ctx.viol.sort(key=lambda v: (v[0], len(v[1].get("msg", "")), v[1].get("msg", "")))  # smallest case first per signature
     ctx.cov["bounds"] = {
         "i_skeleton_phases": {name: {"tags": nt, "chunk_alphabet_sizes": [len(s) for s in sl], "tag_variants": len(ts)}
                               for name, nt, sl, ts in skel_phases(q)},
